@@ -125,7 +125,7 @@ def run(eng, tier):
     ]
     def ab(e, kind): return e.get('abort') and e['abort'][0] == kind
     TA = [('action-name-serialisation', 'D', lambda e: is_unit_enum_serialisation(e)),
-          ('zero-amount-pull', 'D(validate: size >= 1)', lambda e: ab(e, 'unwrap') and 'transfer amount must be > 0' in e['key'])]
+          ('zero-amount-pull', 'D(validate: size >= 1)', lambda e: is_generic_err_unwrap(e))]
     m = check_table(eng, PROP, refs, v, T, TA, 'an approval')
     for name in ('not-approver', 'unknown-id', 'plain-ask', 'already-approved', 'size-mismatch', 'base-mismatch'):
         eng.ob(m[name] > 0, PROP, 'refusal-present', name, 'the stated refusal "%s" is not found in the code any more' % name)
